@@ -70,10 +70,15 @@
 (*   CheckOutput   FALSE: yaml-merge does not refuse an existing --output  *)
 (*   ValidateFirst FALSE: a validation failure can be raised after the     *)
 (*                 write                                                   *)
+(*   PrepareFirst  TRUE = FixedPrepare: yaml-merge prepares the result for *)
+(*                 output (where "unrepresentable" is detected) before the *)
+(*                 backup steps; FALSE = MirroredPrepare: the pinned order *)
+(*                 yaml_merge.py:291-298 (backup) then :300-307 (prepare), *)
+(*                 which TLC shows to violate PreWriteFailureLeavesNoTrace *)
 (***************************************************************************)
 EXTENDS Naturals, Sequences, FiniteSets
 
-CONSTANTS BackupFirst, CheckOutput, ValidateFirst, MaxInputs
+CONSTANTS BackupFirst, CheckOutput, ValidateFirst, PrepareFirst, MaxInputs
 
 FVals == {"absent", "ORIG", "STALE", "EMPTY", "PARTIAL", "NEW"}
 Tools == {"set", "merge_out", "merge_ow", "rotate"}
@@ -89,9 +94,13 @@ AllOpts == { o \in [tool : Tools, bak : BOOLEAN, stale : BOOLEAN, outx : BOOLEAN
                /\ (~o.changed => o.tool = "rotate") }
 
 PreWrite == {"unmatched", "check", "impossible", "merge_conflict", "anchor_conflict",
-             "unreadable", "exists_output"}
+             "unreadable", "exists_output",
+             "unrepresentable"}   \* the result cannot be expressed in the output format (JSON: non-string Hash key);
+                                  \* raised while the result is PREPARED for output: Merger.prepare_for_dump ->
+                                  \* json.dump(jsonify_yaml_data(..)), yaml_merge.py:300-307, before open :310
 CausesOf(tool) == CASE tool = "set" -> {"unmatched", "check", "impossible", "unreadable"}
-                    [] tool \in {"merge_out", "merge_ow"} -> {"merge_conflict", "anchor_conflict", "unreadable"}
+                    [] tool \in {"merge_out", "merge_ow"} -> {"merge_conflict", "anchor_conflict", "unreadable",
+                                                              "unrepresentable"}
                     [] OTHER -> {"unreadable"}
 ExitCauses == PreWrite \cup {"none", "io", "assert"}
 
@@ -195,7 +204,13 @@ AtLabel(l, s, e) ==
                          THEN (IF Okay(e) THEN Go(Pop(s), "open_w") ELSE Abort(Pop(s), "io"))
                          ELSE Reject(s)
     [] l = "open_w" ->
-         Plain(s, e, "open_w", W(s), Go(Push(Put(s, W(s), "EMPTY"), W(s)), AfterOpenW(s)))
+         \* MirroredPrepare (PrepareFirst = FALSE): yaml_merge.py:291-307 as pinned prepares the documents for
+         \* dumping AFTER the backup steps, so "unrepresentable" can end the run here, the .bak already written
+         IF e.op = "exit"
+         THEN IF ~PrepareFirst /\ s.pc = "open_w" /\ s.o.tool = "merge_ow" /\ s.open = <<>>
+                 /\ e.res = "fail" /\ e.role = "unrepresentable"
+              THEN Done(s, "fail", "unrepresentable") ELSE Reject(s)
+         ELSE Plain(s, e, "open_w", W(s), Go(Push(Put(s, W(s), "EMPTY"), W(s)), AfterOpenW(s)))
     [] l = "dump" ->
          IF e.op = "dump" /\ e.role = W(s)
          THEN IF Okay(e) THEN Go(Put(s, W(s), "NEW"), "close_w")
